@@ -45,3 +45,28 @@ where
     *s = rest;
     Ok(())
 }
+
+/// Model of `<&[u8] as Read>::read_exact` for totality harnesses (C09): identical effect on both paths
+/// (copy + advance, or consume everything and fail with kind UnexpectedEof) except for the *representation*
+/// of the error value: `io::Error::from(ErrorKind::UnexpectedEof)` (integer-tagged `Simple`) instead of the
+/// pointer-tagged static `READ_EXACT_EOF`, so that the tag test in `io::Error`'s drop glue constant-folds
+/// and the recursive `dyn Error` drop is not unrolled. varuint::read discards the value (`map_err(|_| ..)`).
+pub fn slice_read_exact_err_model<'a>(s: &mut &'a [u8], buf: &mut [u8]) -> std::io::Result<()>
+where
+    'a: 'a,
+{
+    if buf.len() > s.len() {
+        let end: &'a [u8] = &(*s)[s.len()..];
+        *s = end;
+        return Err(std::io::Error::from(std::io::ErrorKind::UnexpectedEof));
+    }
+    let n = buf.len();
+    let mut i = 0;
+    while i < n {
+        buf[i] = s[i];
+        i += 1;
+    }
+    let rest: &'a [u8] = &(*s)[n..];
+    *s = rest;
+    Ok(())
+}
